@@ -68,6 +68,10 @@ def main(argv=None):
                 return 0
             print("VIOLATION property=%s replay=%s" % (case["property"], args.path))
             return 1
+        for obs in sorted((res.stats.get("extended_observations") or {})):
+            # THREADS, extended mode: a disagreement at a finer granularity than the property's
+            # quantifier - recorded, never an alarm
+            print("observation (extended mode, not an alarm): %s" % obs)
         print("no violation")
         return 0
 
